@@ -9,6 +9,8 @@ int ci_children(const void *die, void *out_dies, int max);      /* ci_wrap.c: th
 #include "pf_forests.h"
 int verif_raised;
 int g_par[NN]; unsigned long g_off[NN]; unsigned g_n; _Bool g_claims_children[NN];
+_Bool g_has_sibling_attr[NN]; int g_origin[NN];     /* attribute layer of the libdw model: arbitrary (used only by code that looks at DW_AT_sibling) */
+int nondet_int(void);
 unsigned long nondet_ulong(void);
 
 void hb_child_parent(void)
@@ -16,6 +18,11 @@ void hb_child_parent(void)
   for (int i = 0; i < NN; ++i)
     {
       g_off[i] = nondet_ulong(); g_claims_children[i] = nondet_ulong() & 1;
+#ifdef ATTR_SYMBOLIC
+      g_has_sibling_attr[i] = nondet_ulong() & 1; g_origin[i] = nondet_int(); __CPROVER_assume(g_origin[i] >= -1 && g_origin[i] < NN);
+#else
+      g_has_sibling_attr[i] = 0; g_origin[i] = -1;      /* no DW_AT_sibling / DW_AT_abstract_origin anywhere (the ATTR_SYMBOLIC job varies them) */
+#endif
       __CPROVER_assume(g_off[i] < 1000000);
       if (i == 0) __CPROVER_assume(g_off[0] == HS); else __CPROVER_assume(g_off[i] > g_off[i - 1] + HS);
     }
